@@ -4,6 +4,7 @@ import PyCraft.Generated.Versions
 import PyCraft.Generated.VersionProfiles
 import PyCraft.Model.PlayWire
 import PyCraft.Model.LoginWire
+import PyCraft.Model.SessionWire
 /-!
 Protocol version ↦ the version-dependent PARAMETERS of the byte-level play and login models.
 
@@ -45,7 +46,7 @@ What mirrors which Python:
   The SECOND, independent test `protocol_later_eq(107)` in `PlayingReactor.react`
   (`connection.py:814`) is the probe's `ackKind`; `rowOk` demands that it agrees with the reader's.
   The declared layouts (`get_definition`) are tied to the same switch points in
-  `Props/VersionProfiles.lean` (`layouts_at`).
+  `Props/VersionProfiles.lean` (`declared_layouts_switch_with_the_profile`, via `Lemmas`' `layouts_at`).
 * `loginProfileOfRow` — `EncryptionResponsePacket.get_id`, `PluginResponsePacket.get_id`,
   `LoginStartPacket.get_id` (`serverbound/login/__init__.py`) and the clientbound login ids.
   Before 385 no plugin response is registered and no plugin request can be decoded
@@ -65,15 +66,23 @@ abbrev Ents := List (String × Option Int)
 /-- A declarative layout: `(field name, wire type)` in order. -/
 abbrev Layout := List (String × WType)
 
-/-- The id a row registers for class `cls` (`none`: not registered, or `get_id` gave no
-non-negative integer). -/
-def idIn (row : Ents) (cls : String) : Option Nat :=
-  match row.lookup cls with
-  | some (some i) => if 0 ≤ i then some i.toNat else none
+/-- A non-negative integer id as a natural number (`none`: `get_id` raised, returned a non-integer,
+or a negative number). -/
+def natOfId : Option Int → Option Nat
+  | some (Int.ofNat n) => some n
   | _ => none
 
+/-- The id a row registers for class `cls` (`none`: not registered, or no usable id). -/
+def idIn (row : Ents) (cls : String) : Option Nat :=
+  match row.lookup cls with
+  | some i => natOfId i
+  | none => none
+
+/-- The usable ids of a row, one per entry that has one. -/
+def natIds (row : Ents) : List Nat := row.filterMap fun e => natOfId e.2
+
 /-- How many entries of a row carry id `i`. -/
-def countId (row : Ents) (i : Nat) : Nat := (row.filter (fun e => e.2 == some (i : Int))).length
+def countId (row : Ents) (i : Nat) : Nat := ((natIds row).filter (fun j => Nat.beq j i)).length
 
 /-- `cls.get_definition(ctx)` under version `v` (`none`: hand-written codec, or no definition):
 the layout of the first variant whose version list contains `v`. -/
@@ -97,7 +106,7 @@ def namedIn (cb : Ents) (names : List (String × String)) (name : String) : Ents
 def dispatchIn (cb : Ents) (names : List (String × String)) (name : String) :
     Option (String × Nat) :=
   match namedIn cb names name with
-  | [(c, some i)] => if 0 ≤ i then some (c, i.toNat) else none
+  | [(c, i)] => (natOfId i).map fun n => (c, n)
   | _ => none
 
 def zip3 {α β γ : Type} : List α → List β → List γ → List (α × β × γ)
@@ -134,9 +143,8 @@ def reactedNames : List String := ["keep alive", "player position and look", "di
 /-- The remaining known clientbound packets: `(id, packet_name)`. -/
 def othersOf (cb : Ents) (names : List (String × String)) : List (Nat × String) :=
   cb.filterMap fun e =>
-    match names.lookup e.1, e.2 with
-    | some n, some i =>
-      if reactedNames.contains n then none else if 0 ≤ i then some (i.toNat, n) else none
+    match names.lookup e.1, natOfId e.2 with
+    | some n, some i => if reactedNames.contains n then none else some (i, n)
     | _, _ => none
 
 /-- The keep-alive width the real code used: reader and writer must agree. -/
@@ -316,6 +324,12 @@ def loginProfileOf (v : Nat) : Option LoginProfile :=
 /-- Version ↦ the parameters of `Model/LoginWire.lean` and `Model/HandshakeWire.lean`. -/
 def idsAt (v : Nat) : Option LoginWire.Ids := (loginProfileOf v).map (·.ids)
 def lsIdAt (v : Nat) : Option Nat := (loginProfileOf v).map (·.lsId)
+
+/-- A session (`Model/SessionWire.lean`) whose version-dependent parameters are the ones protocol
+`v` determines: negotiated protocol `v`, and login-start id, login ids and play profile as the
+code computes them under `v`. -/
+def AtVersion (S : Session.Session) (v : Nat) : Prop :=
+  S.proto = v ∧ lsIdAt v = some S.lsId ∧ idsAt v = some S.ids ∧ profileOf v = some S.profile
 
 /-- The three numberings of the login packets: before 385 (no plugin packets), the 1.13 snapshots
 385–390 (plugin packets inserted at id 0), and from 391 on (plugin packets appended). -/
